@@ -12,6 +12,7 @@ import (
 	"runtime/debug"
 	"strings"
 	"sync"
+	"sync/atomic"
 
 	"github.com/VictoriaMetrics/metrics"
 	"reduction.dev/reduction/dkv/bloom"
@@ -49,6 +50,18 @@ type Table struct {
 
 // NewTable initializes a new, empty table
 func NewTable(file storage.File) *Table {
+	return newTable(file, nil)
+}
+
+// tableFileCleanup deletes a table's file once the Table object is garbage,
+// unless the database that wrote the table was closed in the meantime: after
+// that the file may be referenced by a database restored from a checkpoint.
+type tableFileCleanup struct {
+	deleteFunc func() error
+	disowned   *atomic.Bool
+}
+
+func newTable(file storage.File, disowned *atomic.Bool) *Table {
 	t := &Table{
 		file:        file,
 		searchIndex: &SearchIndex{},
@@ -56,11 +69,14 @@ func NewTable(file storage.File) *Table {
 		size:        0,
 	}
 
-	runtime.AddCleanup(t, func(f func() error) {
-		if err := f(); err != nil {
+	runtime.AddCleanup(t, func(c tableFileCleanup) {
+		if c.disowned != nil && c.disowned.Load() {
+			return
+		}
+		if err := c.deleteFunc(); err != nil {
 			slog.Error("table cleanup", "err", err)
 		}
-	}, file.CreateDeleteFunc())
+	}, tableFileCleanup{file.CreateDeleteFunc(), disowned})
 
 	return t
 }
